@@ -20,6 +20,10 @@ type Session struct {
 	C *Checker
 
 	shadow *world.World
+	// configuration ops seen so far (world, epoch, gasmap, payable): replayed on a freshly constructed world, they give
+	// it the configuration of the running one; its accounts are then copied over (fresh-object comparison of C13)
+	cfgLog []string
+	nCalls int
 }
 
 // NewSession creates a fresh world and its checker.
@@ -93,9 +97,22 @@ func (s *Session) execDeterminism(line string) (obs string) {
 	if op == "call" {
 		c, isCall = s.W.ParseCallLine(line)
 	}
+	var fresh *world.World
 	if !isCall {
+		switch op {
+		case "world":
+			s.cfgLog = []string{line}
+		case "epoch", "gasmap", "payable":
+			s.cfgLog = append(s.cfgLog, line)
+		}
 		obs = safeExec(s.W, line)
 	} else {
+		// every call of a short run, every 16th of a long one: a world built from scratch (fresh factory, container and
+		// function objects) is given the configuration and the CURRENT state of the running one and must answer the same
+		s.nCalls++
+		if s.nCalls <= 4000 || s.nCalls%16 == 0 {
+			fresh = s.freshReplica()
+		}
 		c2, buf := aliasedCall(c)
 		pristine := append([]byte(nil), buf...)
 		hdr := append([][]byte(nil), c2.Args...)
@@ -125,10 +142,31 @@ func (s *Session) execDeterminism(line string) (obs string) {
 			}
 		}
 	}
+	if fresh != nil {
+		if obsF := safeExec(fresh, line); obsF != obs {
+			s.C.Report("C13", line, fmt.Sprintf("function objects that have executed the history answer differently from freshly constructed ones on the same state: %q vs %q (hidden state in a function object)", obs, obsF))
+		}
+	}
 	if s.shadow != nil {
 		if obs2 := safeExec(s.shadow, line); obs2 != obs {
 			s.C.Report("C13", line, fmt.Sprintf("two independently constructed worlds fed the same ops answer differently: %q vs %q", obs, obs2))
 		}
 	}
 	return obs
+}
+
+// freshReplica builds a new world with the configuration of s.W (by replaying the configuration ops) and a deep copy of
+// its account states; nil when that is not possible.
+func (s *Session) freshReplica() *world.World {
+	if len(s.cfgLog) == 0 {
+		return nil
+	}
+	r := world.New()
+	for _, l := range s.cfgLog {
+		safeExec(r, l)
+	}
+	if !r.CopyAccountsFrom(s.W) {
+		return nil
+	}
+	return r
 }
